@@ -125,6 +125,37 @@ def gen_custom(rng, tier, index):
 
 PROBE_PULSE = 65535
 
+def same_shape(name):
+    """Other loader families whose sampling loop has the same length, IN offset and EAR mask (so that one can be
+    copied over the other without moving the IN instruction) but different code."""
+    code, off, lt, mask, _ = FAMILY[name]
+    return sorted(n for n, (c2, o2, lt2, m2, _) in FAMILY.items() if n != name and len(c2) == len(code) and o2 == off and m2 == mask and c2 != code)
+
+def gen_repatch(rng, tier, index):
+    """Two turbo blocks; between them the program copies a second loader (another family of the same shape) over
+    the first, so the code around the same IN address changes while the tape session continues."""
+    names = sorted(n for n in FAMILY if same_shape(n))
+    for _ in range(20):
+        scn = gen_custom(rng, tier, index)
+        if scn['loader'] in names:
+            break
+        scn = None
+    if scn is None:
+        scn = gen_custom(rng, tier, index)
+        scn['loader'] = rng.choice(names)
+    name2 = rng.choice(same_shape(scn['loader']))
+    b1 = scn['blocks'][0]
+    b1['len'] = min(b1['len'], 40)
+    b2 = json.loads(json.dumps(b1))
+    b2['seed'] = rng.getrandbits(48)
+    b2['len'] = rng.randrange(1, 40)
+    s2 = (FAMILY[name2][2] / 59.0) * rng.uniform(0.97, 1.04)
+    b2.update({'pilot': int(2168 * s2), 'sync1': int(667 * s2), 'sync2': int(735 * s2), 'zero': int(855 * s2), 'one': int(1710 * s2)})
+    scn['blocks'] = [b1, b2]
+    scn['repatch'] = name2
+    scn['size'] = b1['len'] + b2['len'] + 500
+    return scn
+
 def gen_landing(rng, tier, index):
     """A custom-loader tape whose turbo block has one long pulse in the middle of its pilot tone (after enough pilot
     for the loader's one-second wait).  The loader's edge searches time out repeatedly while the pulse lasts; the length of the pulse is chosen at run time (probe, see p13._landing)
@@ -215,13 +246,23 @@ def build(scn, wd):
     if scn.get('r0') is not None:
         stub += bytes((0x3E, scn['r0'], 0xED, 0x4F))          # LD A,r0; LD R,A  (bit 7 of R is program state too)
     ldbytes = base + 0x40 + entry
-    dest = (base + 0x40 + len(code) + 0x20) & 0xFFFF
+    code2 = b''
+    if scn.get('repatch'):
+        code2, entry2 = loader_bytes(base + 0x40, scn['repatch'], scn['dec_a_jp'])
+        if len(code2) != len(code) or entry2 != entry:
+            raise tapeload.ToolError('repatch loaders differ in size')
+    dest = (base + 0x40 + len(code) + len(code2) + 0x20) & 0xFFFF
     ranges = []
     blocks = scn['blocks']
-    for b in blocks:
+    jr_at = []
+    for bi, b in enumerate(blocks):
+        if bi == 1 and code2:
+            # LD HL,copy; LD DE,loader; LD BC,len; LDIR  - the second loader replaces the first in place
+            stub += bytes((0x21,)) + _word(base + 0x40 + len(code)) + bytes((0x11,)) + _word(base + 0x40) + bytes((0x01,)) + _word(len(code2)) + bytes((0xED, 0xB0))
         d = dest
         b['dest'] = d
         stub += bytes((0xDD, 0x21)) + _word(d) + bytes((0x11,)) + _word(b['len']) + bytes((0x3E, b['flag'], 0x37, 0xCD)) + _word(ldbytes)
+        jr_at.append(len(stub))
         stub += bytes((0x30, 0x00))      # JR NC,fail  (patched below)
         ranges.append((d, d + b['len']))
         dest += b['len'] + 7
@@ -230,14 +271,12 @@ def build(scn, wd):
     fail = base + len(stub)
     stub += bytes((0xF3, 0x18, 0xFE))            # fail: DI; JR fail
     # patch JR NC displacements
-    pos = 4 if scn.get('r0') is not None else 0
-    for b in blocks:
-        jr_at = pos + 13
-        disp = (fail - base) - (jr_at + 2)
-        stub[jr_at + 1] = disp & 0xFF
-        pos += 15
-    assert len(stub) <= 0x40, len(stub)
-    image = bytes(stub) + bytes(0x40 - len(stub)) + code
+    for at in jr_at:
+        disp = (fail - base) - (at + 2)
+        stub[at + 1] = disp & 0xFF
+    if len(stub) > 0x40:
+        raise tapeload.ToolError('driver stub does not fit (%d bytes)' % len(stub))
+    image = bytes(stub) + bytes(0x40 - len(stub)) + code + code2
     if dest >= 0x10000 or base + len(image) >= 0x10000:
         raise tapeload.ToolError('generated layout does not fit')
     binf = os.path.join(wd, 'loader.bin')
